@@ -33,7 +33,7 @@ ASSUMPTIONS = [
     "newlinechar is LF or CRLF (the reader works on logical lines)",
 ]
 TIERS = {
-    "quick": {"examples": 5000, "machine_runs": 320, "machine_steps": 20, "budget_s": 110},
+    "quick": {"examples": 12000, "machine_runs": 960, "machine_steps": 25, "budget_s": 110},
     "thorough": {"examples": 100000, "machine_runs": 5000, "machine_steps": 50, "budget_s": 1800},
 }
 PARTS = ["search", "machine"]
@@ -242,7 +242,7 @@ def search(acc: Acc, tier, shard, nshards):
         if o is None:
             acc.excl("both_quotes_in_strings")
             return []
-        how = "dumps" if counter["i"] % 25 else ch.choice(["public_dumps", "dump", "save"])
+        how = ch.choice(["dumps"] * 24 + ["public_dumps", "dump", "save"])
         s = model.stats_of(doc)
         nt = "str" in s["classes"] and len(s["classes"]) >= 2
         acc.case([doc, src, sorted(o.items())], nt, sample={"source": src, "options": o, "printed": W.dumps(d, **o)[:600]} if nt and len(acc.samples) < 2 else None)
